@@ -397,6 +397,47 @@ def stereo_statement_probes():
     return out
 
 
+def numeric_splice_probes():
+    """Character-level hostility inside numerals: every digit of a few
+    texts with numbers gets a non-ASCII digit-like character (superscript,
+    subscript, circled, Arabic-Indic, fullwidth) spliced in before / after /
+    instead of it; plus numerals of absurd length."""
+    bases = [
+        'fragment a{C labeled c1 {in ring of size 3}}',
+        'fragment a{C labeled c1 {connected to >=12 H}}',
+        'fragment a{C labeled c1 {in 2 ring}}',
+        'fragment a{C labeled c1 {has 1 radical electrons}}',
+        'rule r{reactant a{C labeled c1} modify number of radical (c1, 2) '
+        'decrease number of radical (c1) decrease number of radical (c1)}',
+        'rule r{reactant a{C labeled c10 H labeled h2 single bond to c10} '
+        'break bond (c10,h2) increase number of radical (c10) increase '
+        'number of radical (h2)}',
+    ]
+    odd = ['\u00b2', '\u2082', '\u2460', '\u0663', '\uff13', '\u00bd', '\u2075',
+           '\u0967']
+    out = []
+    for b in bases:
+        for k, ch in enumerate(b):
+            if ch.isdigit():
+                for o in odd:
+                    out.append(b[:k] + o + b[k:])
+                    out.append(b[:k + 1] + o + b[k + 1:])
+                    out.append(b[:k] + o + b[k + 1:])
+        for n in (50, 4299, 4300, 4301, 5000, 20000):
+            for k, ch in enumerate(b):
+                if ch.isdigit():
+                    out.append(b[:k] + ch * n + b[k + 1:])
+                    break
+            # ... and on the LAST numeral of the text
+            ks = [k for k, ch in enumerate(b) if ch.isdigit()]
+            out.append(b[:ks[-1]] + '7' * n + b[ks[-1] + 1:])
+            # ... and on EVERY numeral that is not part of a label
+            for k in ks:
+                if not b[k - 1].isalnum():
+                    out.append(b[:k] + '7' * n + b[k + 1:])
+    return out
+
+
 def valid_corpus(ctx, rng, n):
     out = []
     for _ in range(n):
@@ -456,6 +497,10 @@ def run_shard(ctx):
     for i, t in enumerate(rule_edit_probes()):
         if ctx.mine(i):
             check_text(ctx, t, 'systematic rule-edit probe')
+    for i, t in enumerate(numeric_splice_probes()):
+        if ctx.mine(i):
+            check_text(ctx, t, 'numeral with a non-ASCII digit / of absurd '
+                               'length')
     sp = stereo_statement_probes()
     for i, t in enumerate(sp):
         if ctx.mine(i) and (not q or i % 3 == ctx.seed % 3):
